@@ -108,9 +108,17 @@ def _run(case, rec):
 
 
 def _export_all(rec, shape, V, F, E, case, tmp, sig0):
+    written = {}
     if True:
         for fmt in case["order"]:
             sig = dict(sig0, fmt=fmt)
+            # files written earlier into the same directory (same stem, other extension) are still what they were
+            for p_, raw_ in written.items():
+                ok_ = os.path.exists(p_) and open(p_, "rb").read() == raw_
+                if not rec.check(ok_, "earlier_export_left_alone", dict(sig0, writing=fmt, earlier=os.path.splitext(p_)[1][1:].upper()),
+                                 exists=os.path.exists(p_)):
+                    written = {}
+                    break
             path = os.path.join(tmp, "shape." + fmt.lower())
             writer = getattr(coxeter.io, "to_" + fmt.lower())
             r = call(shape.save, fmt, path) if case["via_save"] else call(writer, shape, path)
@@ -120,6 +128,7 @@ def _export_all(rec, shape, V, F, E, case, tmp, sig0):
             if not rec.check(os.path.exists(path), "file_written", sig):
                 continue
             raw = open(path, "rb").read()
+            written[path] = raw
             try:
                 text = raw.decode("utf-8")
             except UnicodeDecodeError:
